@@ -2,7 +2,8 @@
 From Coq Require Import ZArith List Bool Arith String Permutation.
 From SP Require Import Model.Num Model.Arrow Model.Bounds Model.PointKernels Model.PointShape
                        Model.Sjoin Model.SjoinWf Spec.SjoinSpec
-                       Proofs.SjoinRows Proofs.SjoinPairs Proofs.SjoinCand Proofs.SjoinCols Proofs.SjoinBBox Proofs.SjoinArrayForm.
+                       Proofs.SjoinRows Proofs.SjoinPairs Proofs.SjoinCand Proofs.SjoinCols Proofs.SjoinBBox Proofs.SjoinArrayForm
+                       Proofs.SjoinRtreeBridge.
 Import ListNotations.
 Local Open Scope nat_scope.
 
@@ -166,6 +167,64 @@ Theorem C05_model_exact_closed : forall h ls rs lm rm a rgeoms res,
 Proof. exact model_exact_closed. Qed.
 Print Assumptions C05_model_exact_closed.
 
+(* ---- the index contract discharged by the Hilbert R-tree of C03 ---- *)
+
+(* [rtree_cand keys ps a q] (Proofs/SjoinRtreeBridge.v) = HilbertRtree(left bounds).intersects(q):
+   the tree of Model/Rtree.v built over the bounds rows of the left frame with the key
+   permutation [keys] (the Hilbert order, any p) and page size [ps] (0 is coerced to 1 as the
+   constructor does).  For every such tree the index contract holds -- by C03_intersects_In /
+   C03_intersects_NoDup.  Guard [left_bounds_tidy] (executable): a left bounds row with a NaN
+   is NaN in its first column (true when the present points have finite coordinates,
+   C05_finite_coords_tidy); without it the real index itself drops a row such as (1, NaN)
+   that the mask isnan(row[0]) keeps. *)
+Theorem C05_rtree_is_an_index : forall a keys ps,
+  wf_fixarr a = true -> left_bounds_tidy a = true ->
+  Permutation keys (seq 0 (fa_len a)) ->
+  cand_contract (fa_len a) (fa_bounds a) (rtree_cand keys ps a).
+Proof. exact rtree_is_an_index. Qed.
+Print Assumptions C05_rtree_is_an_index.
+
+Theorem C05_finite_coords_tidy : forall a,
+  wf_fixarr a = true ->
+  (exists slots, Intersect.all_some (map (Intersect.point_slot a) (seq 0 (fa_len a))) = Some slots) ->
+  left_bounds_tidy a = true.
+Proof. exact (fun a W S => finite_coords_tidy a (conj W S)). Qed.
+Print Assumptions C05_finite_coords_tidy.
+
+(* the pair table computed through the tree *)
+Theorem C05_pairs_exact_rtree : forall keys ps a rgeoms prs,
+  wf_fixarr a = true -> left_bounds_tidy a = true ->
+  Permutation keys (seq 0 (fa_len a)) ->
+  right_wf rgeoms = true ->
+  pair_table (rtree_cand keys ps a) a rgeoms = Some (Value prs) ->
+  pair_enum a rgeoms prs.
+Proof. exact pairs_exact_rtree. Qed.
+Print Assumptions C05_pairs_exact_rtree.
+
+(* sjoin with the R-tree as the left index, for every key permutation and page size:
+   pandas' merge is the only contract left; the other premises are executable guards *)
+Theorem C05_sjoin_exact_rtree : forall mrg keys ps h ls rs lm rm a rgeoms res,
+  merge_contract mrg ->
+  left_bounds_tidy a = true ->
+  Permutation keys (seq 0 (fa_len a)) ->
+  right_wf rgeoms = true ->
+  sjoin mrg (rtree_cand keys ps) h ls rs lm rm a rgeoms = Some (inr res) ->
+  exists prs, pair_enum a rgeoms prs /\
+              Permutation (j_rows res) (expected_rows h (fa_len a) (List.length rgeoms) prs).
+Proof. exact sjoin_exact_rtree. Qed.
+Print Assumptions C05_sjoin_exact_rtree.
+
+(* with the relational join of the executable model: no contract left *)
+Theorem C05_model_exact_rtree : forall keys ps h ls rs lm rm a rgeoms res,
+  left_bounds_tidy a = true ->
+  Permutation keys (seq 0 (fa_len a)) ->
+  right_wf rgeoms = true ->
+  sjoin merge_rel_op (rtree_cand keys ps) h ls rs lm rm a rgeoms = Some (inr res) ->
+  exists prs, pair_enum a rgeoms prs /\
+              Permutation (j_rows res) (expected_rows h (fa_len a) (List.length rgeoms) prs).
+Proof. exact model_exact_rtree. Qed.
+Print Assumptions C05_model_exact_rtree.
+
 (* what the expected rows are, row by row: no row twice; (l, r) iff a pair; (l, missing) iff
    how = left and l has no partner; (missing, r) iff how = right and r has no partner *)
 Theorem C05_rows_once : forall h nl nr ps, NoDup ps -> NoDup (expected_rows h nl nr ps).
@@ -284,4 +343,56 @@ Proof. vm_compute. reflexivity. Qed.
 (* excluded input F2: one suffix is the other plus a level digit -> KeyError *)
 Example ex_suffix_digit_keyerror :
   sjoin_case (Inner, "r", "r1", ex_rm, ex_lm, ex_left, ex_right) = Some (inl 5%nat).
+Proof. vm_compute. reflexivity. Qed.
+
+(* ---- non-vacuity of the R-tree instance: five left points (one missing), the tree built
+   with page size 2 (three leaf pages, depth 2) and a non-identity key order ---- *)
+Definition ex_left5 : fixarr :=
+  {| fa_off := 0; fa_len := 5; fa_valid := Some [true; false; true; true; true];
+     fa_vals := [Some 1; Some 1; Some 0; Some 0; Some 3; Some 3; Some 2; Some 0; Some 7; Some 7]%Z |}.
+Definition ex_keys5 : list nat := [4; 1; 3; 0; 2].
+
+Example ex_rtree_guards :
+  wf_fixarr ex_left5 = true /\ left_bounds_tidy ex_left5 = true /\ right_wf ex_right = true /\
+  Permutation ex_keys5 (seq 0 (fa_len ex_left5)).
+Proof.
+  repeat split; try reflexivity. unfold ex_keys5. cbn.
+  apply perm_trans with (4 :: [0; 1; 2; 3]).
+  - apply perm_skip. apply perm_trans with (1 :: [0; 2; 3]).
+    + apply perm_skip. apply perm_trans with (3 :: [0; 2]); [apply perm_skip, Permutation_refl|].
+      change (Permutation ([3] ++ [0; 2]) ([0; 2] ++ [3])). apply Permutation_app_comm.
+    + apply perm_swap.
+  - change (Permutation ([4] ++ [0; 1; 2; 3]) ([0; 1; 2; 3] ++ [4])). apply Permutation_app_comm.
+Qed.
+
+(* the tree: root, two inner nodes, three leaf pages (+ one absent page) *)
+Example ex_rtree_tree :
+  Rtree.t_tree (left_sindex ex_keys5 2 ex_left5) =
+  [[Some 1; Some 0; Some 7; Some 7]; [Some 1; Some 0; Some 7; Some 7]; [Some 3; Some 3; Some 3; Some 3];
+   [Some 7; Some 7; Some 7; Some 7]; [Some 1; Some 0; Some 2; Some 1]; [Some 3; Some 3; Some 3; Some 3];
+   [None; None; None; None]]%Z.
+Proof. vm_compute. reflexivity. Qed.
+
+(* candidates for the bounds rows of the two right shapes, and for a NaN row *)
+Example ex_rtree_cand :
+  rtree_cand ex_keys5 2 ex_left5 (Some 0, Some 0, Some 2, Some 2)%Z = [3; 0] /\
+  rtree_cand ex_keys5 2 ex_left5 (Some 3, Some 3, Some 3, Some 3)%Z = [2] /\
+  rtree_cand ex_keys5 2 ex_left5 (None, None, None, None) = [0; 2; 3; 4].
+Proof. vm_compute. repeat split; reflexivity. Qed.
+
+(* left row 3 = (2, 0) is a candidate of the square (its box is not outside the bounds row)
+   that the exact filter rejects *)
+Example ex_rtree_sjoin :
+  match sjoin merge_rel_op (rtree_cand ex_keys5 2) Left "left" "right" ex_lm ex_rm ex_left5 ex_right with
+  | Some (inr r) => sort_orows (j_rows r)
+  | _ => []
+  end = [(Some 0, Some 0); (Some 1, None); (Some 2, Some 1); (Some 3, None); (Some 4, None)]%nat.
+Proof. vm_compute. reflexivity. Qed.
+
+(* the same frames through the linear scan of the executable model *)
+Example ex_rtree_sjoin_scan :
+  match sjoin merge_rel_op scan_cand Left "left" "right" ex_lm ex_rm ex_left5 ex_right with
+  | Some (inr r) => sort_orows (j_rows r)
+  | _ => []
+  end = [(Some 0, Some 0); (Some 1, None); (Some 2, Some 1); (Some 3, None); (Some 4, None)]%nat.
 Proof. vm_compute. reflexivity. Qed.
